@@ -79,35 +79,27 @@ theorem assignLoc_index (s : Store) (name : Name) (ser : Series) (l : Loc) (v : 
 theorem setLabel_index (s : Store) (name : Name) (label : Nat) (v : Operand) :
     (setLabel s name label v).1.index = s.index := by
   unfold setLabel
-  cases hl : locate s label with
-  | missing => rfl
-  | pos p =>
+  cases hg : s.get name with
+  | none => rfl
+  | some ser =>
     dsimp only
-    cases hg : s.get name with
-    | none => rfl
-    | some ser => exact assignLoc_index _ _ _ _ _
-  | nonIntPos p =>
-    dsimp only
-    cases hg : s.get name with
-    | none => rfl
-    | some ser => exact assignLoc_index _ _ _ _ _
-  | slice a b =>
-    dsimp only
-    cases hg : s.get name with
-    | none => rfl
-    | some ser => exact assignLoc_index _ _ _ _ _
+    cases hl : locate s label with
+    | missing => rfl
+    | pos p => exact assignLoc_index _ _ _ _ _
+    | nonIntPos p => exact assignLoc_index _ _ _ _ _
+    | slice a b => exact assignLoc_index _ _ _ _ _
 
 theorem setLabelSlice_index (s : Store) (name : Name) (a b : Option Nat) (st : Option Int) (v : Operand) :
     (setLabelSlice s name a b st v).1.index = s.index := by
   unfold setLabelSlice
-  cases hr : resolveSlice s a b st with
-  | error e => rfl
-  | ok t =>
-    obtain ⟨lo, hi, step⟩ := t
+  cases hg : s.get name with
+  | none => rfl
+  | some ser =>
     dsimp only
-    cases hg : s.get name with
-    | none => rfl
-    | some ser =>
+    cases hr : resolveSlice s a b st with
+    | error e => rfl
+    | ok t =>
+      obtain ⟨lo, hi, step⟩ := t
       dsimp only
       cases hp : pySliceAny (firstDim ser) (some ↑lo) (some ↑hi) (some step) with
       | none => rfl
